@@ -173,7 +173,7 @@ func c04(r *ev.Run, pairMode bool) {
 		afterWarmups(r, "totp-validate-after-other-operations", cs, func(c c04Case) (string, string) { return totpValidate(c, k, nil, pairMode) })
 	}
 	volume(r, "totp-validate-volume", 1100, func(k int) c04Case {
-		key := []byte(fmt.Sprintf("volume-key-%04d", k/2))
+		key := []byte(fmt.Sprintf("volume-key-%04d-0123456789abcdefghij", k/2))[:10+(k/2*7)%27]
 		t := int64(1111111109 + k*31)
 		return c04Case{ref.B32Encode(key), ref.HOTP(key, ref.Step(t, 30)+uint64(k%4), 6, k%3), t, 0, 30, uint64(k % 3), 6, k % 3, false}
 	}, func(c c04Case) (string, string) {
